@@ -1887,6 +1887,49 @@ func ruleSyncFailureRollsBack(r *Report) {
 			}
 		}
 	}
+	// when the record cannot be taken back either (the undo fails as well), the failure is kept where Close finds it:
+	// a log rotation closes this file and continues in the next one when Close returns nil — the rejected record would sit
+	// in front of records that were acknowledged after it
+	{
+		ukey := rule + "/recordio.FileWriter.WriteSync/undo-failure-reaches-close"
+		field := ""
+		for _, t := range trunc {
+			_, fail := errorEdges(t)
+			for _, e := range fail {
+				reach := reachFrom(e.To, nil)
+				eachInstr(fn, func(x Site) {
+					st, isS := x.Instr.(*ssa.Store)
+					if !isS || !reach[x.Block] || !isErrorType(st.Val.Type()) {
+						return
+					}
+					if ty, f, _, isF := fieldAddrName(st.Addr); isF && ty == "recordio.FileWriter" {
+						field = f
+					}
+				})
+			}
+		}
+		cl := p.Func("recordio.FileWriter.Close")
+		okClose := field != "" && cl != nil
+		if okClose {
+			isF := isFieldLoad("recordio.FileWriter", field)
+			uses := false
+			for _, rs := range returnsOf(cl) {
+				res := rs.Instr.(*ssa.Return).Results[0]
+				if isNilConst(res) {
+					okClose = false // a plain success return forgets the rejected record
+				}
+				if valueDependsOn(res, func(x ssa.Value) bool { return isF(x) }) {
+					uses = true
+				}
+			}
+			okClose = okClose && uses
+		}
+		if okClose {
+			r.OK(rule, ukey, syncs[0].Pos(), "a failed undo is kept in "+field+" and Close returns it")
+		} else {
+			r.Bad(rule, ukey, syncs[0].Pos(), "when the undo of a rejected record fails too (fsync EIO, then ftruncate EIO) the writer only refuses further writes; Close still returns nil, so a WAL rotation goes on in the next file: appends A, C, D acknowledged, B rejected — replay delivers ABCD")
+		}
+	}
 	if bad {
 		r.Bad(rule, key, syncs[0].Pos(), "when fsync fails the error is returned but the record stays in the file, complete: Put(k,v1) ok, Put(k,v2) fails with EIO at fsync, Get(k) = v1 — after a crash and Open Get(k) = v2; a rejected Delete deletes the key after recovery; and since an empty memstore is not flushed at Close, the same happens after a clean restart")
 	} else {
@@ -2246,5 +2289,48 @@ func ruleStackKeepsEveryReader(r *Report) {
 		r.OK(rule, key, fn.Pos(), "readers: the parameter itself")
 	} else {
 		r.Bad(rule, key, fn.Pos(), "the stacked reader does not keep the readers it was given as they are (a filtered or rebuilt list): DB.Close closes the tables through this view, a table that was left out — e.g. one without records after a compaction dropped everything — keeps its mapping after Close")
+	}
+}
+
+// R-buffer-sizes-bounded (C01): the buffer size options are uint64 values that the background goroutines convert to int and
+// hand to make([]byte, n) at the first flush. A value no slice can have panics there (makeslice: len out of range) and
+// stops the process on a valid workload — NewSimpleDB, Open and every Put had returned nil. The constructor rejects them.
+func ruleBufferSizesBounded(r *Report) {
+	const rule = "buffer-sizes-bounded"
+	r.Rule(rule, 2, "NewSimpleDB compares each of the two buffer size options with a constant upper bound that fits an int and returns an error on the too-large side, before the database object is built")
+	fn := r.NeedFunc(rule, "simpledb.NewSimpleDB")
+	if fn == nil {
+		return
+	}
+	for _, f := range []string{"writeBufferSizeBytes", "readBufferSizeBytes"} {
+		key := rule + "/simpledb.NewSimpleDB/" + f
+		ok := false
+		var pos token.Pos
+		for _, b := range liveBlocks(fn) {
+			for _, v := range ifCmpForms(b) {
+				if v.Op != token.GTR && v.Op != token.GEQ {
+					continue
+				}
+				if _, lf, _, isF := loadOfField(v.X); !isF || lf != f {
+					continue
+				}
+				k, isK := constInt(v.Y)
+				if c, isC := v.Y.(*ssa.Const); isC && c.Value != nil && !isK {
+					// a constant that does not fit int64 bounds nothing
+					continue
+				}
+				if !isK || k <= 0 || k > 1<<40 {
+					continue
+				}
+				if endsInFailingReturn(v.T) {
+					ok, pos = true, b.Instrs[len(b.Instrs)-1].Pos()
+				}
+			}
+		}
+		if ok {
+			r.OK(rule, key, pos, "rejected above a constant bound")
+		} else {
+			r.Bad(rule, key, fn.Pos(), "the option "+f+" reaches make([]byte, int(n)) unchecked: with 1<<62, 1<<63 or math.MaxUint64 NewSimpleDB, Open and Put return nil and the flusher goroutine panics at the first flush (makeslice: len out of range) — the process ends on a valid workload")
+		}
 	}
 }
